@@ -55,11 +55,14 @@ fn fault_menu(thorough: bool) -> Vec<(String, String)> {
         "line 3 column 7: something went wrong (1234)".into(),
         "unbalanced ( inside".into(),
         "a \"\"quoted\"\" word".into(),
+        // real solvers print multi-line messages (z3 on unknown options, cvc5 parse errors)
+        "first line\nsecond line".into(),
+        "option (a\nb) is unknown".into(),
     ];
     for m in msgs.iter() {
         v.push(("error".into(), m.clone()));
     }
-    for m in msgs.iter().take(if thorough { 9 } else { 4 }) {
+    for m in msgs.iter().take(if thorough { 11 } else { 4 }) {
         v.push(("error-exit".into(), m.clone()));
     }
     v.push(("unknown".into(), "".into()));
@@ -118,9 +121,11 @@ fn classify(r: &Run, res: &Value) -> Option<(String, String)> {
         "unknown" => None,
         "err" => {
             if r.kind.starts_with("error") && !r.param.is_empty() {
-                let m = res["msg"].as_str().unwrap_or("");
-                let want = r.param.replace("\"\"", "\"");
-                if !m.contains(&r.param) && !m.contains(&want) {
+                // the reader joins the lines of a reply with a blank: compare modulo whitespace runs
+                let norm = |x: &str| x.split_whitespace().collect::<Vec<_>>().join(" ");
+                let m = norm(res["msg"].as_str().unwrap_or(""));
+                let want = norm(&r.param.replace("\"\"", "\""));
+                if !m.contains(&norm(&r.param)) && !m.contains(&want) {
                     return Some((
                         format!("message-mangled|{kind_class}"),
                         format!("the solver's error message `{}` is not carried verbatim in the returned error `{}`: {desc}", r.param, m.replace('\n', " ")),
@@ -144,7 +149,9 @@ fn classify(r: &Run, res: &Value) -> Option<(String, String)> {
 
 fn msg_len_class(m: &str) -> String {
     let n = m.chars().count();
-    let special = if m.contains('(') && !m.contains(')') {
+    let special = if m.contains('\n') {
+        "+multiline"
+    } else if m.contains('(') && !m.contains(')') {
         "+unbalanced-paren"
     } else if m.contains('"') {
         "+quote"
